@@ -47,7 +47,7 @@ INST = (
      I('disc_redirect', 'disconnected', DISC, redirect=True),
      I('disc_redirect_n2_sm', 'disconnected', DISC, redirect=True, N=2, L=5, req=1, tiers=T),
      # (fixed finding: a redirect that arrives while a session is established used to keep the session flag set)
-     I('disc_redirect_in_session', 'disconnected', DISC, redirect=True, session=True, N=1, L=0)]
+     I('disc_redirect_in_session', 'disconnected', DISC, redirect=True, session=True, N=1, L=0, tiers=T)]
     # re-entrancy: the completion handler of the cancelled request issues a new request through the real send path while the session closes
     + [I('disc_close_reenter', 'disconnected_reenter', DISC + ' with stream management active but the session NOT resumable; the handler of the cancelled request sends a new IQ (fresh id 2 units, addressee 2 units) via OutgoingIqManager::sendIq / StreamAckManager::send on the unconnected socket', onereq=True, session=True),
        I('disc_redirect_reenter', 'disconnected_reenter', DISC + ' (see-other-host redirect ends an established session) with stream management active but the session NOT resumable; the handler of the cancelled request sends a new IQ via the real send path', onereq=True, session=True, redirect=True)]
@@ -55,7 +55,7 @@ INST = (
     + [I('start_client', 'start', 'socket started (handleStart)', L=0, N=1),
        I('start_nonsasl_pending', 'start', 'socket started (handleStart)', L=7),
        I('start_sm_resume', 'start', 'socket started (handleStart)', L=5, req=1),
-       I('start_bind', 'start', 'socket started (handleStart)', L=6, req=2),
+       I('start_bind', 'start', 'socket started (handleStart)', L=6, req=2, tiers=T),
        I('start_starttls', 'start', 'socket started (handleStart)', L=1, tiers=T),
        I('start_sasl', 'start', 'socket started (handleStart)', L=3, tiers=T),
        I('start_sasl2', 'start', 'socket started (handleStart)', L=4, tiers=T),
